@@ -53,6 +53,9 @@ structure Cfg where
   faults : List (Point × Kind)
   regs : List Reg
   explicitXv : Option Kind            -- the view body calls request.invoke_exception_view for such an exception
+  /-- the view body calls `request.invoke_exception_view(exc_info, request=other)` for ANOTHER request: (kind of the
+  exception, failure scheduled in the exception view, `other` belongs to a different registry) -/
+  explicitOther : Option (Kind × Option Kind × Bool) := none
 deriving Repr, Inhabited
 
 mutual
@@ -216,7 +219,36 @@ def Reqs.toList : Reqs → List Req
   | .nil => []
   | .cons r rs => r :: rs.toList
 
-/-- the view callable: hook, optional explicit `request.invoke_exception_view`, then the subrequests (`subsM`) -/
+/-- identity of the request handed to `invoke_exception_view(request=…)`: a child index no subrequest uses -/
+def otherId : Nat := 1000
+
+/-- the schedule of that other request: only its exception view can fail -/
+def otherCfg (f : Option Kind) : Cfg :=
+  { useTweens := false, route := false, faults := (match f with | some k => [(.excView, k)] | none => []),
+    regs := [], explicitXv := none }
+
+/-- `request.invoke_exception_view(exc_info, request=other)` from the view body of `self`: view.py pushes a frame for
+the request ARGUMENT (`{'request': request, 'registry': registry}` with `request = other`), so inside the exception
+view the current request is `other`; the events of `other` are its own log (a kid tree); an unanswered exception
+(no exception view in `other`'s registry) is HTTPNotFound, a failing exception view propagates. -/
+def invokeOther (xv : Bool) (t : Kind × Option Kind × Bool) (self : Path) : M Unit := fun s =>
+  let target := self ++ [otherId]
+  let xvT := if t.2.2 then !xv else xv
+  let r := invokeExcView xvT (otherCfg t.2.1) target (excOf t.1) { stack := s.stack }
+  let out : Outcome := match r with
+    | .ok true _ => .resp
+    | .ok false _ => .raised .http
+    | .err e _ => .raised e
+  let s1 : St := { s with
+    log := s.log ++ [Ev.sub otherId, Ev.resume (r.st.stack.head? == some self) r.st.stack.length],
+    stack := r.st.stack,
+    kids := s.kids ++ [Tr.node r.st.log out r.st.stack.length []] }
+  match out with
+  | .resp => .ok () s1
+  | .raised e => .err e s1
+
+/-- the view callable: hook, optional explicit `request.invoke_exception_view`, the subrequests (`subsM`), optional
+explicit `invoke_exception_view(request=other)` -/
 def viewBody (xv : Bool) (cfg : Cfg) (self : Path) (subsM : M Unit) : M Unit := do
   let _ ← hook cfg self .viewBody
   match cfg.explicitXv with
@@ -225,6 +257,9 @@ def viewBody (xv : Bool) (cfg : Cfg) (self : Path) (subsM : M Unit) : M Unit := 
     let handled ← tryFinally (invokeExcView xv cfg self (excOf k)) (resume self)
     if handled then pure () else throw .http                          -- no exception view: HTTPNotFound
   subsM
+  match cfg.explicitOther with
+  | none => pure ()
+  | some t => invokeOther xv t self
 
 /-- `_call_view` on the derived view: predicates, permission, the view, the renderer -/
 def callView (xv : Bool) (cfg : Cfg) (self : Path) (subsM : M Unit) : M Unit := do
